@@ -10,6 +10,7 @@ from ..vals import Vals, callee_is, bool_edges, norm_path, Root
 from ..roles import RoleLost
 from .. import pat, cfg
 from . import common
+from .. import idroles
 
 PID = "C06"
 
@@ -249,7 +250,7 @@ def rule_b(ctx, R, sector, scan, uniform_arg):
     g_root = v.root(ops[1])
     loopvar = v.root_place({"l": nt["dest"]["l"], "p": []}).with_path(("as:Some", "0"))
     gt = v.call_term(g_root)
-    pair_ok = (e_root == loopvar and gt is not None and gt["callee"].get("name") == "pop_edge"
+    pair_ok = (e_root == loopvar and gt is not None and idroles.is_role(ctx, gt, "pop_edge")
                and v.root(gt["args"][1]) == loopvar
                and v.root(gt["args"][0]).kind == "arg")
     ctx.ob("C06-b", "returned pair is (loop variable, pop_edge(subgraph, loop variable))", pair_ok, fn, "scan-returned-pair", where=pat.where(rs),
@@ -288,7 +289,7 @@ def check_all_returns(ctx, scan, v, nt, loop_ret_stmt, loopvar):
                         continue
                     e_root, g_root = v.root(rvv["ops"][0]), v.root(rvv["ops"][1])
                     gt = v.call_term(g_root)
-                    if not (e_root == loopvar and gt is not None and gt["callee"].get("name") == "pop_edge" and v.root(gt["args"][1]) == loopvar):
+                    if not (e_root == loopvar and gt is not None and idroles.is_role(ctx, gt, "pop_edge") and v.root(gt["args"][1]) == loopvar):
                         good = False
                 ok = good
         if not ok:
@@ -335,7 +336,7 @@ def rule_c(ctx, R, sector, scan_site):
         if b["term"]["k"] != "switch":
             continue
         c = v.classify_bool(b["term"]["discr"])
-        if c and c[0] == "call" and c[1].get("callee", {}).get("name") == "has_one_edge":
+        if c and c[0] == "call" and idroles.is_role(ctx, c[1], "has_one_edge"):
             te_, fe_ = bool_edges(sector, bi)
             if (bi, fe_) in acd[sbi]:
                 if sw is not None:
@@ -386,12 +387,12 @@ def rule_c(ctx, R, sector, scan_site):
             d = v.single_def(cur.base[1])
             if d and d[0] == "call":
                 src_t = d[2]
-        if src_t is not None and src_t["callee"].get("name") == "contains_edges" and v.root(src_t["args"][0]) == gr_test:
+        if src_t is not None and idroles.is_role(ctx, src_t, "contains_edges") and v.root(src_t["args"][0]) == gr_test:
             ok_first = True
             det = "edge = contains_edges(%r).next()" % (gr_test,)
     ctx.ob("C06-c", "single-edge branch takes the sole (first enumerated) edge of the tested graph", ok_first, fn, "one-edge-branch-removes-sole-edge",
            detail=det)
-    pops = [(bi, t) for bi, t in sector.calls() if bi in t_region and t.get("callee") and t["callee"].get("name") == "pop_edge"]
+    pops = [(bi, t) for bi, t in sector.calls() if bi in t_region and t.get("callee") and idroles.is_role(ctx, t, "pop_edge")]
     for pbi, pt in pops:
         gr = v.root(pt["args"][0])
         ctx.ob("C06-c", "pop_edge on the single-edge branch acts on the tested graph", gr == gr_test, fn, "one-edge-branch-pop-graph",
